@@ -316,6 +316,17 @@ def agrees(got, prog, env, want, tree=None):
     exact rationals (a dropped 0.0 makes the tree exact where the plain computation rounds;
     a folded x**0 -> 1 makes int/int round in the tree where the plain Fraction is exact)."""
     if got[0] != "v":
+        # the tree RAISES where the plain computation returns a number: with a float by-product
+        # below a remainder (True % 0.333.. is 5e-17 in floats, 0 on exact rationals) a divisor
+        # is zero exactly and almost zero in floats -- agreed if the same computation on exact
+        # rationals raises the same error
+        if got[0] == "exc" and "float" in _types_below(prog, env):
+            try:
+                num(prog, env, exact=True)
+            except RecursionError:
+                raise
+            except Exception as ex:  # noqa: BLE001
+                return type(ex).__name__ == got[1]
         return False
     if refsem.values_equal(got[1], want):
         return True
